@@ -11,6 +11,33 @@ import (
 	"golang.org/x/tools/go/ssa"
 )
 
+// groupTags widens a tag list by the property group of the package, if it touches it.
+func groupTags(p *Prog, pkgPath string, tags []string) []string {
+	if p == nil {
+		return tags
+	}
+	g := p.CS.Groups[pkgPath]
+	if len(g) == 0 {
+		return tags
+	}
+	hit := false
+	for _, t := range tags {
+		if contains(g, t) {
+			hit = true
+		}
+	}
+	if !hit {
+		return tags
+	}
+	out := append([]string{}, tags...)
+	for _, t := range g {
+		if !contains(out, t) {
+			out = append(out, t)
+		}
+	}
+	return out
+}
+
 func contractTags(fc *FuncContract) []string {
 	seen := map[string]bool{}
 	add := func(ts []string) {
@@ -286,6 +313,9 @@ func generate(p *Prog, prop string, cover bool) *RunResult {
 			if len(o.Props) == 0 {
 				o.Props = all
 			}
+			if o.Kind != "discipline" && o.Kind != "cover" {
+				o.Props = groupTags(p, fc.PkgPath, o.Props)
+			}
 			if dep && !contains(o.Props, prop) && o.Kind != "discipline" && o.Kind != "cover" {
 				o.Props = append(append([]string{}, o.Props...), prop)
 				o.Dependency = true
@@ -472,10 +502,7 @@ func contains(xs []string, x string) bool {
 // relevant: the contract has a clause tagged with the property, or calls
 // (directly) a function whose requires are tagged with it.
 func relevant(p *Prog, fc *FuncContract, prop string) bool {
-	if contains(contractTags(fc), prop) {
-		return true
-	}
-	return false
+	return contains(groupTags(p, fc.PkgPath, contractTags(fc)), prop)
 }
 
 func fmtObl(o *Obligation) string {
